@@ -9,9 +9,20 @@ from . import qconv
 SPEC_RE = re.compile(r'^(\d*)(,?)(?:\.(\d+))?([fFeEgGs]?)$')
 
 
+def _me(f):
+    """exact (mantissa, exponent) of a dyadic Fraction, mantissa odd or exponent 0"""
+    m, e = f.numerator, -(f.denominator.bit_length() - 1)
+    if e == 0:
+        while m and m % 2 == 0 and abs(m) >= 2 ** 62:
+            m, e = m // 2, e + 1
+    return m, e
+
+
 def _dbl(f):
-    m = f'0x{abs(f.numerator):x}' if f.numerator >= 0 else f'(-0x{abs(f.numerator):x})'
-    return f'(dbl {m} {f.denominator.bit_length() - 1})'      # hex numerals parse 3x faster than decimal fractions
+    m, e = _me(f)
+    if abs(m) < 2 ** 62 and -2048 <= e < 2 ** 20:
+        return f'({"vm" if m < 0 else "vp"} {abs(m)} {e + 2048})%uint63'      # Model/FloatLit.v: primitive-int numerals are read fast
+    return f'(Fin ({f.numerator} # {f.denominator}))'
 
 
 def fval(x):
@@ -38,11 +49,10 @@ def fl(x):
         x = float(x)
         if math.isnan(x) or math.isinf(x) or (x == 0 and math.copysign(1.0, x) < 0):
             return 'FBad'
-    f = Fraction(x)
-    m, e = f.numerator, -(f.denominator.bit_length() - 1)
-    while m and m % 2 == 0 and e < 0:
-        m, e = m // 2, e + 1
-    return f'(FD {"(-0x%x)" % -m if m < 0 else "0x%x" % m} {"(%d)" % e if e < 0 else e})'
+    m, e = _me(Fraction(x))
+    if abs(m) < 2 ** 62 and -2048 <= e < 2 ** 20:
+        return f'({"fdm" if m < 0 else "fdp"} {abs(m)} {e + 2048})%uint63'
+    return f'(FD ({m}) ({e}))'
 
 
 def parse_spec(spec):
@@ -159,6 +169,49 @@ def cases(rnd, n):
     return out
 
 
+def float_cases(rnd, nops, narrays):
+    """[(description, Coq bool term)]: Model/Float.v against Python / numpy on random operands and arrays"""
+    import numpy as np
+
+    def val():
+        r = rnd.random()
+        if r < 0.3:
+            return rnd.uniform(-1, 1) * 10 ** rnd.randint(-8, 12)
+        if r < 0.5:
+            return float(rnd.randint(-1000, 100000))
+        if r < 0.7:
+            return rnd.randint(1, 10 ** 6) / 10 ** rnd.randint(0, 6)
+        if r < 0.8:
+            return rnd.choice([100.0, 1e6, 1e3, 24.0, 0.5, 3.0, 1.0, 0.0])
+        return rnd.uniform(0, 400)
+
+    out = []
+    for _ in range(nops):
+        a, b = val(), val()
+        for op, f in (('fadd', lambda x, y: x + y), ('fsub', lambda x, y: x - y), ('fmul', lambda x, y: x * y),
+                      ('fdiv', lambda x, y: x / y if y else None)):
+            r = f(a, b)
+            outside = r is None or (r == 0 and (math.copysign(1, r) < 0 or (op in ('fmul', 'fdiv') and (a < 0 or b < 0)))) \
+                or (r != 0 and abs(r) < 2.3e-308) or math.isinf(r)
+            term = f'match {op} {fl(a)} {fl(b)} with None => true | _ => false end' if outside else f'opt_is ({op} {fl(a)} {fl(b)}) {fl(r)}'
+            out.append(((op, a, b, r), term))
+    for _ in range(narrays):
+        n = rnd.choice([1, 2, 3, 7, 8, 9, 16, 17, 31, 100, 121, 128, 129, 130, 200, 361, 1201])
+        sc = 10 ** rnd.randint(-3, 4)
+        a = [rnd.uniform(0, 1) * sc if rnd.random() < 0.9 else float(rnd.randint(0, 5)) for _ in range(n)]
+        arr = np.array(a)
+        lit = '[' + '; '.join(fl(x) for x in a) + ']'
+        s = abs(val()) or 1.0
+        for op, r in (('np_average l', float(np.average(arr))), ('np_sum l', float(np.sum(arr))), ('seq_sum (FD 0 0) l', float(sum(arr))),
+                      ('np_max l', float(np.max(arr))), ('np_min l', float(np.min(arr))),
+                      (f'seval None (SAvg (ADivS (ALeaf l) (SLeaf {fl(s)})))', float(np.average(arr / s))),
+                      (f'seval None (SPySum (AMulS (ALeaf l) (SLeaf {fl(24)})))', float(sum(arr * 24))),
+                      (f'seval (Some {n // 2}%nat) (SDiv (SRow (ALeaf l)) (SIdx (ALeaf l) 0))', (arr[n // 2] / arr[0]) if arr[0] else None)):
+            if r is not None and not (math.isnan(r) or math.isinf(r)):
+                out.append(((op.split(' ')[0], n, r), f'(let l := {lit} in opt_is ({op}) {fl(r)})'))
+    return out
+
+
 def kernel_bools(ctx, name, requires, terms, shard=300):
     """fw.kernel_bools with List.length spelled out (String.length shadows it once String is imported)."""
     from . import framework as fw
@@ -171,7 +224,7 @@ def kernel_bools(ctx, name, requires, terms, shard=300):
 
 
 def kernel_groups(ctx, name, requires, groups, shard_bytes=300_000):
-    """groups: [(prefix, [bool terms])] - prefix is a chain of `let x := .. in` shared by the terms of the group.
+    """groups: [(definitions, [bool terms])] - top-level Coq definitions (series) the terms of the group refer to.
     Evaluates everything in the kernel (sharded by size, 16 coqc in parallel); returns the set of (group, term) that are false."""
     import contextlib
     import re
@@ -191,8 +244,9 @@ def kernel_groups(ctx, name, requires, groups, shard_bytes=300_000):
         shards.append(cur)
     jobs = []
     for k, gis in enumerate(shards):
-        parts = ['(' + groups[gi][0] + '[\n ' + ';\n '.join(groups[gi][1]) + '])' for gi in gis]
+        parts = ['[\n ' + ';\n '.join(groups[gi][1]) + ']' for gi in gis]
         text = fw.HEADER + ''.join(f'From Verif Require Import {r}.\n' for r in ['Base.Flat'] + list(requires))
+        text += ''.join(dict.fromkeys(groups[gi][0] for gi in gis))      # the definitions the groups refer to (once each)
         text += 'Eval vm_compute in (let l := (' + '\n ++ '.join(parts) + ')%list in (List.length l, mismatches (fun b : bool => b) 0 l)).\n'
         path = ctx.scratch / ('cases_' + re.sub(r'[^A-Za-z0-9_]', '_', name) + f'_{k}.v')
         path.write_text(text)
